@@ -22,19 +22,51 @@ def dig(*parts):
     return hashlib.sha1(repr(parts).encode()).hexdigest()[:12]
 
 
+class Blob:
+    """A value with a custom, zero-copy serde (registered through JobInstance.serdes): deserialising keeps a view into the
+    shared-memory buffer, as numpy.frombuffer does, so the buffer can not be closed while the value is alive."""
+
+    def __init__(self, data):
+        self.data = data
+
+    def bytes(self):
+        return bytes(self.data)
+
+    def __eq__(self, other):
+        return isinstance(other, Blob) and self.bytes() == other.bytes()
+
+    def __hash__(self):
+        return hash(self.bytes())
+
+    def __repr__(self):
+        return f"Blob({self.bytes()!r})"
+
+    def __reduce__(self):
+        return (Blob, (self.bytes(),))
+
+
+def blob_ser(v):
+    return v.bytes()
+
+
+def blob_des(b):
+    return Blob(memoryview(b))
+
+
 class make:
     """Picklable callable.  k == 1 -> returns one value; k > 1 -> generator of k values.
     pad: extra bytes appended to the value so dataset sizes vary.  nyield: how many values are actually
     produced (defaults to k; != k exercises the count-mismatch clause)."""
 
-    def __init__(self, tag, k, pad=0, nyield=None):
-        self.tag, self.k, self.pad = tag, k, pad
+    def __init__(self, tag, k, pad=0, nyield=None, blob=False):
+        self.tag, self.k, self.pad, self.blob = tag, k, pad, blob
         self.nyield = k if nyield is None else nyield
         self.__name__ = f"task_{tag}"
 
     def _val(self, base, i):
         v = f"{base}/{i}" if self.k > 1 else base
-        return v + ("." * self.pad)
+        v = v + ("." * self.pad)
+        return Blob(v.encode()) if getattr(self, "blob", False) else v
 
     def __call__(self, *args, **kwargs):
         calls[self.tag] += 1
